@@ -123,6 +123,10 @@ impl Scenario for Rpc {
             json!({"programs": [["declare", "purge", "delete"], ["declare", "purge", "delete"]], "hold": false}),
             json!({"programs": [["consume_srv_cancel", "purge"], ["declare", "consume_srv_cancel"]], "hold": false}),
             json!({"programs": [["get_msg", "purge"], ["get_empty", "get_msg"], ["declare", "get_msg"]], "hold": true}),
+            // channel ids closed and opened again (explicitly and by the allocator, channel_max 2)
+            // before the calls: a reply must still find the channel that asked
+            json!({"programs": [["declare", "purge"], ["purge", "declare"]], "hold": true, "reuse": "ab"}),
+            json!({"programs": [["declare", "purge"], ["purge", "declare"]], "hold": true, "reuse": "ba"}),
         ];
         v.push(json!({"programs": [["declare", "purge"], ["publish", "delete"]], "hold": false, "fine": true}));
         if tier == "thorough" {
@@ -165,21 +169,47 @@ impl Scenario for Rpc {
         if cfg.fine {
             cfg.max_steps = 20000;
         }
+        let reuse = p["reuse"].is_string();
+        let close_b_first = p["reuse"] == "ba";
         Built {
             broker: Box::new(broker),
             cfg,
             root: Box::new(move |ctx: Ctx| {
-                let mut conn = match open(&ctx, ConnectionOptions::default().heartbeat(0), ConnectionTuning::default()) {
+                let mut conn = match open(&ctx, ConnectionOptions::default().heartbeat(0).channel_max(if reuse { 2 } else { 0 }), ConnectionTuning::default()) {
                     Ok(c) => c,
                     Err(e) => {
                         ctx.log(format!("open -> Err({})", err_name(&e)));
                         return;
                     }
                 };
+                let mut pre: Vec<Result<Channel, amiquip::Error>> = Vec::new();
+                if reuse {
+                    // ids 1 and 2 handed out by the allocator and closed again; then id 1 is
+                    // opened explicitly and the allocator is asked for one more channel: it must
+                    // be id 2, and each channel's replies must find their own caller
+                    let a = conn.open_channel(None).expect("first");
+                    let b = conn.open_channel(None).expect("second");
+                    if close_b_first {
+                        b.close().expect("close second");
+                        a.close().expect("close first");
+                    } else {
+                        a.close().expect("close first");
+                        b.close().expect("close second");
+                    }
+                    pre.push(conn.open_channel(Some(1)));
+                    pre.push(conn.open_channel(None));
+                    pre.reverse();
+                }
                 let mut actors = Vec::new();
                 for (i, prog) in programs.into_iter().enumerate() {
                     let chan = (i + 1) as u16;
-                    let ch = match conn.open_channel(Some(chan)) {
+                    let opened = if reuse { pre.pop().unwrap() } else { conn.open_channel(Some(chan)) };
+                    if let (true, Ok(c)) = (reuse, &opened) {
+                        if c.channel_id() != chan {
+                            ctx.log(format!("open_channel{} -> Err(got id {})", chan, c.channel_id()));
+                        }
+                    }
+                    let ch = match opened {
                         Ok(c) => c,
                         Err(e) => {
                             ctx.log(format!("open_channel{} -> Err({})", chan, err_name(&e)));
@@ -559,7 +589,17 @@ impl Scenario for Wire {
     }
     fn variants(&self, tier: &str) -> Vec<Value> {
         let lim = if tier == "thorough" { 6 } else { 2 };
-        vec![json!({"stall": null, "bound": 16, "menu": lim}), json!({"stall": 0, "bound": 16, "menu": lim}), json!({"stall": 100, "bound": 1, "menu": lim}), json!({"stall": 333, "bound": 2, "menu": lim})]
+        vec![
+            json!({"stall": null, "bound": 16, "menu": lim}),
+            json!({"stall": 0, "bound": 16, "menu": lim}),
+            json!({"stall": 100, "bound": 1, "menu": lim}),
+            json!({"stall": 333, "bound": 2, "menu": lim}),
+            // the server closes the connection while writers are busy and the transport takes
+            // writes only in part: whatever is on the wire is still whole frames, each channel's
+            // a prefix of its program, CloseOk last
+            json!({"stall": null, "bound": 16, "menu": lim, "server_close": true}),
+            json!({"stall": 400, "bound": 16, "menu": lim, "server_close": true}),
+        ]
     }
     fn bound(&self, tier: &str, _p: &Value) -> usize {
         if tier == "thorough" {
@@ -572,7 +612,10 @@ impl Scenario for Wire {
         "two writer threads on channels 1 and 2 (three publishes, a nowait bind, a qos each) plus the connection thread, over a transport that accepts writes short at every call (then stalls until granted 1 / 8 / all bytes) or starts stalled; oracle: the byte stream is the protocol header plus whole frames, each channel's frames are exactly its program in issue order, nothing lost or duplicated, everything flushed before Connection.Close".into()
     }
     fn build(&self, p: &Value) -> Built {
-        let broker = StdBroker::new(Handshake::default());
+        let mut broker = StdBroker::new(Handshake::default());
+        if p["server_close"] == true {
+            broker.pushes.push(Push::new("conn-close", vec![conn_close_frame(320, "bye")]).after_frames(6));
+        }
         let mut cfg = EnvConfig::default();
         cfg.write_cuts = true;
         cfg.grant_menu = vec![1, 8];
@@ -597,7 +640,13 @@ impl Scenario for Wire {
                 };
                 let mut actors = Vec::new();
                 for chan in 1..=2u16 {
-                    let ch = conn.open_channel(Some(chan)).expect("open_channel");
+                    let ch = match conn.open_channel(Some(chan)) {
+                        Ok(c) => c,
+                        Err(e) => {
+                            ctx.log(format!("open_channel{} -> Err({})", chan, err_name(&e)));
+                            continue;
+                        }
+                    };
                     actors.push(ctx.spawn(&format!("w{}", chan), move |ctx| {
                         for i in 0..3u8 {
                             let body = vec![chan as u8 * 16 + i; (i as usize + 1) * 2];
@@ -620,15 +669,16 @@ impl Scenario for Wire {
             }),
         }
     }
-    fn check(&self, _p: &Value, o: &Outcome, _w: &World) -> Vec<(String, String)> {
+    fn check(&self, p: &Value, o: &Outcome, _w: &World) -> Vec<(String, String)> {
         let mut v = Vec::new();
         let (envs, rest) = wire_frames(o);
         if rest != 0 {
             v.push(("wire:partial-frame".into(), format!("{} trailing bytes", rest)));
         }
+        let server_closed = p["server_close"] == true && o.io_events.iter().any(|e| matches!(e, vh::sim::world::IoEvent::Frame(AMQPFrame::Method(0, AMQPClass::Connection(amq_protocol::protocol::connection::AMQPMethod::Close(_))))));
         for chan in 1..=2u16 {
             let log = o.logs.get(&format!("w{}", chan)).cloned().unwrap_or_default();
-            if log.len() != 6 || log.iter().any(|l| !l.ends_with("-> Ok")) {
+            if !server_closed && (log.len() != 6 || log.iter().any(|l| !l.ends_with("-> Ok"))) {
                 v.push(("wire:writer-failed".into(), format!("writer {} log {:?}", chan, log)));
             }
             // expected frames of this channel, payloads spelled out from the AMQP 0-9-1 field
@@ -661,12 +711,37 @@ impl Scenario for Wire {
                     t => got.push(format!("T{}", t)),
                 }
             }
+            if server_closed {
+                // the close cuts every program short at a frame boundary (a publish may lose its
+                // tail frames only if it was never handed over as a whole, i.e. not at all)
+                let is_prefix = got.len() <= want.len() && got.iter().zip(want.iter()).all(|(g, w)| g == w);
+                let whole_publishes = match got.last() {
+                    Some(l) if l.starts_with("M003c0028") || l.starts_with('H') => false,
+                    _ => true,
+                };
+                if !is_prefix || !whole_publishes {
+                    v.push(("wire:frames-changed-by-close".into(), format!("channel {} frames on the wire {:?} are not a whole-message prefix of {:?}", chan, got, want)));
+                }
+                continue;
+            }
             if got != want {
                 let key = if got.len() < want.len() { "wire:frames-lost" } else if got.len() > want.len() { "wire:frames-duplicated" } else { "wire:frames-reordered-or-changed" };
                 v.push((key.into(), format!("channel {} frames on the wire {:?} expected {:?}", chan, got, want)));
             }
         }
         let main = o.logs.get("main").cloned().unwrap_or_default();
+        if server_closed {
+            if main.last().map(|s| s.as_str()) != Some("close -> Err(ServerClosedConnection(320,bye))") {
+                v.push(("wire:close".into(), format!("main log {:?}", main)));
+            }
+            match envs.last() {
+                Some(last) if last.chan == 0 && is_method(last, 10, 51) => {}
+                // crossing closes: the client's own Close was written before the server's arrived
+                Some(last) if last.chan == 0 && is_method(last, 10, 50) => {}
+                _ => v.push(("wire:last-frame".into(), "the last frame written after the server's close is neither Connection.CloseOk nor the client's own Close".into())),
+            }
+            return v;
+        }
         if main != vec!["close -> Ok".to_string()] {
             v.push(("wire:close".into(), format!("main log {:?}", main)));
         }
